@@ -1,0 +1,105 @@
+//go:build verif
+
+package ed25519
+
+// Verification hooks (build tag "verif" only): thin exported wrappers around the
+// internal edwards25519 scalar and point operations, so that an external monitor
+// can feed chosen operands and compare the results with an independent model.
+// Nothing here is compiled into a normal build.
+
+import (
+	"github.com/cloudflare/pat-go/ed25519/internal/edwards25519"
+)
+
+// VerifScalarReduce64 returns SetUniformBytes(x) for a 64-byte x.
+func VerifScalarReduce64(x []byte) []byte {
+	return edwards25519.NewScalar().SetUniformBytes(x).Bytes()
+}
+
+// VerifScalarSetBytes returns the fork's own SetBytes(x) (reduction of 32 bytes).
+func VerifScalarSetBytes(x []byte) []byte {
+	return edwards25519.NewScalar().SetBytes(x).Bytes()
+}
+
+// VerifScalarSetBytesWithClamping returns SetBytesWithClamping(x).
+func VerifScalarSetBytesWithClamping(x []byte) []byte {
+	return edwards25519.NewScalar().SetBytesWithClamping(x).Bytes()
+}
+
+// VerifScalarCanonical reports whether SetCanonicalBytes accepts x.
+func VerifScalarCanonical(x []byte) bool {
+	_, err := edwards25519.NewScalar().SetCanonicalBytes(x)
+	return err == nil
+}
+
+func verifScalar(x []byte) *edwards25519.Scalar {
+	return edwards25519.NewScalar().SetBytes(x)
+}
+
+// VerifScalarMulAdd returns x*y+z mod l; operands are reduced with SetBytes first.
+func VerifScalarMulAdd(x, y, z []byte) []byte {
+	return edwards25519.NewScalar().MultiplyAdd(verifScalar(x), verifScalar(y), verifScalar(z)).Bytes()
+}
+
+// VerifScalarOps returns x+y, x-y, -x, x*y mod l.
+func VerifScalarOps(x, y []byte) (add, sub, neg, mul []byte) {
+	sx, sy := verifScalar(x), verifScalar(y)
+	add = edwards25519.NewScalar().Add(sx, sy).Bytes()
+	sub = edwards25519.NewScalar().Subtract(sx, sy).Bytes()
+	neg = edwards25519.NewScalar().Negate(sx).Bytes()
+	mul = edwards25519.NewScalar().Multiply(sx, sy).Bytes()
+	return
+}
+
+// VerifScalarModInverse returns the fork's ModInverse of x (reduced with SetBytes first).
+func VerifScalarModInverse(x []byte) []byte {
+	return verifScalar(x).ModInverse().Bytes()
+}
+
+// VerifPointDecode decodes and re-encodes a point.
+func VerifPointDecode(p []byte) ([]byte, error) {
+	P, err := (&edwards25519.Point{}).SetBytes(p)
+	if err != nil {
+		return nil, err
+	}
+	return P.Bytes(), nil
+}
+
+// VerifScalarMult returns [x]P.
+func VerifScalarMult(x, p []byte) ([]byte, error) {
+	P, err := (&edwards25519.Point{}).SetBytes(p)
+	if err != nil {
+		return nil, err
+	}
+	return (&edwards25519.Point{}).ScalarMult(verifScalar(x), P).Bytes(), nil
+}
+
+// VerifScalarBaseMult returns [x]B.
+func VerifScalarBaseMult(x []byte) []byte {
+	return (&edwards25519.Point{}).ScalarBaseMult(verifScalar(x)).Bytes()
+}
+
+// VerifDoubleScalarBaseMult returns [a]A + [b]B.
+func VerifDoubleScalarBaseMult(a, p, b []byte) ([]byte, error) {
+	P, err := (&edwards25519.Point{}).SetBytes(p)
+	if err != nil {
+		return nil, err
+	}
+	return (&edwards25519.Point{}).VarTimeDoubleScalarBaseMult(verifScalar(a), P, verifScalar(b)).Bytes(), nil
+}
+
+// VerifPointOps returns P+Q, P-Q, -P.
+func VerifPointOps(p, q []byte) (add, sub, neg []byte, err error) {
+	P, err := (&edwards25519.Point{}).SetBytes(p)
+	if err != nil {
+		return nil, nil, nil, err
+	}
+	Q, err := (&edwards25519.Point{}).SetBytes(q)
+	if err != nil {
+		return nil, nil, nil, err
+	}
+	add = (&edwards25519.Point{}).Add(P, Q).Bytes()
+	sub = (&edwards25519.Point{}).Subtract(P, Q).Bytes()
+	neg = (&edwards25519.Point{}).Negate(P).Bytes()
+	return
+}
